@@ -18,9 +18,11 @@ from hv import Case
 
 SPEC = {
     "lean_modules": ["Honeycomb.Props.C16", "Honeycomb.Props.C16Cross", "Honeycomb.Props.C16Clip", "Honeycomb.Props.C16Insert", "Honeycomb.Props.C16Grid", "Honeycomb.Props.C16Edges",
-                     "Honeycomb.Props.C16EdgeInsert", "Honeycomb.Props.C16Chain", "Honeycomb.Props.C16ChainGrid", "Honeycomb.Props.C16Step5Total", "Honeycomb.Props.C16InsertTotal", "Honeycomb.Props.C16Steps23Total", "Honeycomb.Props.C16Step5Pipe", "Honeycomb.Props.C16Gen"],
-    "gen": ["gcross"],
+                     "Honeycomb.Props.C16EdgeInsert", "Honeycomb.Props.C16Chain", "Honeycomb.Props.C16ChainGrid", "Honeycomb.Props.C16Step5Total", "Honeycomb.Props.C16InsertTotal", "Honeycomb.Props.C16Steps23Total", "Honeycomb.Props.C16Step5Pipe", "Honeycomb.Props.C16Gen", "Honeycomb.Props.C17Gen"],
+    "gen": ["gcross", "pre"],
     "required_theorems": [
+        # Props/C17Gen.lean: the on-grid-line tests of detect_overlaps and the grid sizing of grisubal/routines/pre_processing.rs as translated
+        "C17_gen_on_grid_axes", "C17_gen_on_grid", "C17_gen_on_grid_eq", "C17_gen_refl_guard", "C16_gen_grid_data", "C16_gen_grid_origin", "C16_gen_grid_cells",
         # Props/C16Gen.lean: the intersection step generate_intersection_data of grisubal/routines/compute_intersecs.rs as translated IS crossingsOf
         "C16_gen_cross_macro_names", "C16_gen_cross_left", "C16_gen_cross_right", "C16_gen_cross_down", "C16_gen_cross_up", "C16_gen_cross_arms_complete", "C16_gen_cross_cell", "C16_gen_cross_row_pos", "C16_gen_cross_row_neg", "C16_gen_cross_col_pos", "C16_gen_cross_col_neg", "C16_gen_cross_diag_vpos", "C16_gen_cross_diag_vneg", "C16_gen_cross_diag_hpos", "C16_gen_cross_diag_hneg", "C16_gen_cross_unit", "C16_gen_cross_row", "C16_gen_cross_col", "C16_gen_cross_diag_pick", "C16_gen_cross_step", "C16_gen_cross_sorted","C16_orientation_rejection_iff", "C16_orientation_accepts_iff_nodup", "C16_closed_loop_accepted",
                           "C16_repeated_origin_rejected", "C16_repeated_endpoint_rejected", "C16_grid_margins", "C16_grid_tight",
